@@ -74,6 +74,7 @@ class Ctx:
         self.samples: List[str] = []
         self.notes: List[str] = []
         self.check_finite = True  # ctx.grad: also ask whether a divisor of the backward pass can vanish
+        self.counters: Dict[str, int] = {}  # check-specific measured counts reported in evidence
         self.bounds: Dict[str, Any] = {}
         self.dtype = torch.float32
         self.exact_rounding = False
@@ -902,6 +903,7 @@ def run_obligation(fn: Callable, params: dict, tier: str, seed: int, name: str, 
     n_pc = n_conc = checked = 0
     gs = {"collapsed": 0, "witness_cell": 0}
     samples, vars_, notes = [], {}, []
+    counters = {}
     worst = "proved"
     order = {"proved": 0, "path-rejected": 0, "inconclusive": 1, "harness-error": 2, "violated": 3}
     while queue and paths["explored"] < bound:
@@ -936,6 +938,8 @@ def run_obligation(fn: Callable, params: dict, tier: str, seed: int, name: str, 
             samples, vars_ = ctx.samples, {k: v["shape"] for k, v in ctx.vars.items()}
             first = False
         notes += ctx.notes + eng.notes
+        for k_, v_ in getattr(ctx, "counters", {}).items():
+            counters[k_] = counters.get(k_, 0) + v_
         if r["status"] in ("harness-error",) or r["violations"]:
             break
         # ---------------- other sides of the branches on this path
@@ -981,6 +985,7 @@ def run_obligation(fn: Callable, params: dict, tier: str, seed: int, name: str, 
     out["samples"] = samples
     out["vars"] = vars_
     out["notes"] = notes
+    out["counters"] = counters
     out["wall"] = time.time() - t0
     return out
 
